@@ -283,35 +283,57 @@ def minimise(pool, prop, res, target, timeout, budget=300, say=lambda s: None):
         break
       if used >= budget:
         break
-  # schedule: remove context switches
-  improved = True
-  while improved and used < budget and len(schedule) > 1:
-    improved = False
-    idxs = list(range(len(schedule)))
-    if len(idxs) > 48:
-      step = len(idxs) // 48 + 1
-      idxs = idxs[::step]
-    cands = []
-    for i in idxs:
-      s = [list(x) for x in schedule[:i]] + [list(x) for x in schedule[i + 1:]]
-      # merge neighbours naming the same thread
-      m = []
-      for seg in s:
-        if m and m[-1][0] == seg[0]:
-          m[-1][1] += seg[1]
-          m[-1][2] = seg[2] if len(seg) > 2 else 's'
-        else:
-          m.append(list(seg) if len(seg) > 2 else list(seg) + ['s'])
-      cands.append(m)
-    jobs = [{'prop': prop, 'mode': 'explicit', 'plan': plan, 'schedule': s} for s in cands]
+  # schedule: remove context switches (ddmin over segments: big chunks first)
+  def merged(segs):
+    m = []
+    for seg in segs:
+      seg = list(seg) if len(seg) > 2 else list(seg) + ['s']
+      if m and m[-1][0] == seg[0]:
+        m[-1][1] += seg[1]
+        m[-1][2] = seg[2]
+      else:
+        m.append(seg)
+    return m
+
+  w = len(pool.lanes)
+  # (a) fully serial orders first: if the violation needs no interleaving at all
+  nthreads = len(plan.get('threads', [])) or 1
+  if nthreads > 1 and len(schedule) > nthreads and used < budget:
+    orders = [list(range(nthreads)), list(range(nthreads))[::-1]]
+    jobs = [{'prop': prop, 'mode': 'explicit', 'plan': plan,
+             'schedule': [[t, 0, 'b'] for t in o]} for o in orders]
     rs = pool.map(jobs, timeout)
     used += len(jobs)
-    for s, r in zip(cands, rs):
-      if reproduces(r) and len(r['schedule']) < len(schedule):
+    for r in rs:
+      if reproduces(r):
         schedule, best = r['schedule'], r
-        say('  shrink: schedule -> %d segments' % len(schedule))
-        improved = True
+        say('  shrink: serial schedule reproduces (%d segments)' % len(schedule))
         break
+  chunk = max(len(schedule) // 2, 1)
+  while used < budget and len(schedule) > 1:
+    n = len(schedule)
+    cands = []
+    for lo in range(0, n, chunk):
+      s2 = merged([list(x) for x in schedule[:lo]] + [list(x) for x in schedule[lo + chunk:]])
+      if s2 and len(s2) < n:
+        cands.append(s2)
+    cands = cands[:max(w * 3, 48)]
+    hit = None
+    if cands:
+      rs = pool.map([{'prop': prop, 'mode': 'explicit', 'plan': plan, 'schedule': c} for c in cands], timeout)
+      used += len(cands)
+      for c, r in zip(cands, rs):
+        if reproduces(r) and len(r['schedule']) < len(schedule):
+          hit = r
+          break
+    if hit is not None:
+      schedule, best = hit['schedule'], hit
+      say('  shrink: schedule -> %d segments' % len(schedule))
+      chunk = max(min(chunk, len(schedule) // 2), 1)
+    elif chunk == 1:
+      break
+    else:
+      chunk = max(chunk // 2, 1)
   return plan, schedule, best, {'explicit_reproduces': True, 'runs': used}
 
 
@@ -463,6 +485,7 @@ def write_evidence(prop, tier, seed, results, jobs, wall, pool, info, selftest, 
   digests = set()
   switch_pairs = 0
   abstract = set()
+  pair_union = set()
   for r in ok:
     for f in r.get('faults_fired', []):
       k = f[3] if len(f) > 3 else 'stage-exc'
@@ -478,6 +501,7 @@ def write_evidence(prop, tier, seed, results, jobs, wall, pool, info, selftest, 
     steps += r.get('steps', 0)
     digests.add(r.get('digest'))
     switch_pairs = max(switch_pairs, r.get('switch_pairs', 0))
+    pair_union.update(r.get('switch_pair_hashes') or [])
     for a in r.get('abstract', []) or []:
       abstract.add(a)
   points_fired = set()
@@ -518,7 +542,9 @@ def write_evidence(prop, tier, seed, results, jobs, wall, pool, info, selftest, 
       'workload_stats': stats,
       'distinct_schedule_digests': len(digests),
       'max_distinct_switch_pairs_in_one_run': switch_pairs,
+      'distinct_switch_pairs_all_runs': len(pair_union),
       'distinct_abstract_states': len(abstract),
+      'abstract_state_measure': ABSTRACT_TEXT.get(prop, ''),
       'components_real': ['every module of malt/ from the working tree', 'CPython threading.local, weakref, inspect/linecache, importlib',
                           'file system holding user sources and generated modules'],
       'components_stubbed': ['thread scheduling (baton scheduler)', 'the locks malt creates (SimLock): %s' % info.get('sim_locks'),
@@ -547,6 +573,12 @@ def write_evidence(prop, tier, seed, results, jobs, wall, pool, info, selftest, 
   with open(os.path.join(d, '%s.json' % prop), 'w') as f:
     json.dump(ev, f, indent=1, sort_keys=True)
 
+
+ABSTRACT_TEXT = {
+    'C10': 'at every request end: (set of (code object, options) pairs transformed so far, threads with a request in flight, cache-lock owner)',
+    'C16': 'at every node entry: the modelled status stacks of all threads',
+    'C13': 'decision-table cells exercised + (label, options, status, stage, edge, exception) fault cases fired',
+}
 
 RULE_TEXT = {
     'C16': ('each evaluation is one simulated run: 1..N threads each walking a seeded call tree (wrappers convert/do_not_convert/'
